@@ -492,10 +492,23 @@ func (e *Engine) verifapi(fr *frame, fn *ssa.Function, a []Value) Value {
 		return nil
 	case "Snapshot":
 		e.marks = append(e.marks, len(e.undo))
+		vc := map[string]string{}
+		for k, v := range e.vfs {
+			vc[k] = v
+		}
+		e.vfsMarks = append(e.vfsMarks, vc)
+		e.vfsOnlyMarks = append(e.vfsOnlyMarks, append([]string(nil), e.vfsOnlyPrefixes...))
 		return int64(len(e.marks) - 1)
 	case "Restore":
-		m := e.marks[a[0].(int64)]
+		i := a[0].(int64)
+		m := e.marks[i]
 		e.rollback(m)
+		// the virtual file system is engine-side state: put it back too
+		e.vfs = map[string]string{}
+		for k, v := range e.vfsMarks[i] {
+			e.vfs[k] = v
+		}
+		e.vfsOnlyPrefixes = append([]string(nil), e.vfsOnlyMarks[i]...)
 		return nil
 	case "TakeStdout":
 		var acc Value = ""
